@@ -8,7 +8,7 @@ from harness.runner import Clause
 from oracle import geom
 
 RULE = ("Generated: closed oriented meshes with convex faces - polycubes grown from templates (L, U, S, ring of genus 1, "
-        "2x2x2 minus one, ...) with anisotropic stretch, extrusions of non-convex simple polygons with ear-clipped caps, "
+        "2x2x2 minus one, ...) with anisotropic stretch, faces_are_convex given as True / left to its default / False, extrusions of non-convex simple polygons with ear-clipped caps, "
         "radially perturbed star meshes, convex hulls given as meshes - x rigid placement up to 10 diameters x scale "
         "10^+-1. Oracle: signed-tetrahedron moments over the harness's own fan triangulation, cross-checked per case "
         "against the voxel closed form. Non-trivial: not star-shaped about its centroid, or genus 1, or offset >= 1 "
@@ -19,9 +19,13 @@ K = 1e4
 
 
 @st.composite
-def _case(draw, max_n=24):
-    return {"mesh": draw(zoo.mesh3d(max_n=max_n)), "place": draw(zoo.placement(max_offset=10.0, scale_decades=1.0)),
-            "shift": draw(st.integers(0, 7))}
+def _case(draw, max_n=24, anchored=False, decades=1.0):
+    out = {"mesh": draw(zoo.mesh3d(max_n=max_n)), "place": draw(zoo.placement(max_offset=10.0, scale_decades=decades)),
+           "shift": draw(st.integers(0, 7)), "flag": draw(st.sampled_from(["convex", "convex", "default", "not_assumed"]))}
+    if anchored:
+        out["anchor"] = draw(st.sampled_from(zoo.ANCHORS))
+        out["anchor_k"] = draw(st.integers(0, 40))
+    return out
 
 
 def voxel_closed_form(cells, stretch):
@@ -43,10 +47,20 @@ def voxel_closed_form(cells, stretch):
 def _run(case, rec):
     m = zoo.build_mesh(case["mesh"])
     V0, F = m["verts"], [list(map(int, f)) for f in m["faces"]]
-    V, R, t, s = zoo.apply_placement(case["place"], V0)
+    pl = dict(case["place"])
+    if pl["logs"] > 6.0:
+        # Polygon (used for the faces) tests planarity with an absolute tolerance (planar_tolerance=1e-5, a documented
+        # parameter), so rotated faces with coordinates >= 1e7 are refused for rounding noise alone: a stated limit of
+        # the constructor, not of the measures; those draws are folded onto the tiny end of the range instead
+        pl["logs"] -= 14.0
+    V, R, t, s = zoo.apply_placement(pl, V0)
     # cyclic shift of every face's start vertex (a relabelling the class must not care about)
     sh = case["shift"]
     F = [f[sh % len(f):] + f[:sh % len(f)] for f in F]
+    if case.get("anchor"):
+        V = zoo.anchored(case["anchor"], V, F, case["anchor_k"])
+        t = None
+        rec.label("anchor:" + case["anchor"])
     o = geom.mesh_moments(V, F)
     kind = case["mesh"]["kind"]
     star = zoo.star_shaped_about(V, F, o["centroid"])
@@ -57,7 +71,9 @@ def _run(case, rec):
     rec.label("kind:" + kind, case["mesh"].get("template"), "nonstar" if not star else "starshaped", "genus%d" % m["genus"],
               "offset>=1" if off >= 1 else "offset<1")
     rec.nontrivial = (not star) or m["genus"] >= 1 or off >= 1
-    if kind == "voxel":  # two independent oracles must agree, else the harness is wrong
+    if case.get("anchor"):  # here the interesting solids are those whose centroid is not their vertex mean
+        rec.nontrivial = float(np.linalg.norm(o["centroid"] - V.mean(axis=0))) > 1e-3 * D
+    if kind == "voxel" and t is not None:  # two independent oracles must agree, else the harness is wrong
         vol, cen, Ic = voxel_closed_form(m["cells"], m["stretch"])
         vol *= s**3
         cen = s * (R @ cen) + t
@@ -65,7 +81,12 @@ def _run(case, rec):
         assert abs(vol - o["volume"]) <= 1e-9 * vol, "oracle disagreement (volume)"
         assert np.allclose(cen, o["centroid"], atol=1e-9 * (D + np.linalg.norm(cen))), "oracle disagreement (centroid)"
         assert np.allclose(Ic, o["inertia_centroidal"], atol=1e-9 * vol * D * D), "oracle disagreement (inertia)"
-    poly = call(S.Polyhedron, V.copy(), [list(f) for f in F], True)
+    # the faces are convex; the caller may say so, leave the flag to its default (then only all-triangle meshes are
+    # taken as convex and every other face goes through the ear-clipping triangulation), or explicitly not promise it
+    flag = case.get("flag", "convex")
+    args = {"convex": (True,), "default": (), "not_assumed": (False,)}[flag]
+    rec.label("flag:" + flag)
+    poly = call(S.Polyhedron, V.copy(), [list(f) for f in F], *args)
     if isinstance(poly, Raised):
         rec.fail("construct", dict(sig, type=poly.type), msg=poly.msg)
         return
@@ -94,7 +115,12 @@ def _run(case, rec):
 
 def clauses():
     return [Clause("mesh_measures", _case(), _run, quick=2500, thorough=12000, rule="see RULE",
-                   floors={"nonstar": 0.15, "genus1": 0.008, "offset>=1": 0.2, "kind:voxel": 0.15, "kind:extrusion": 0.08, "kind:star": 0.08})]
+                   floors={"nonstar": 0.15, "genus1": 0.008, "offset>=1": 0.2, "kind:voxel": 0.15, "kind:extrusion": 0.08, "kind:star": 0.08}),
+            Clause("mesh_measures_anchored_at_origin", _case(anchored=True), _run, quick=1200, thorough=8000,
+                   rule="same solids translated so that their centroid / vertex mean / one vertex / bounding-box centre is the origin",
+                   floors={"anchor:centroid": 0.2}),
+            Clause("mesh_measures_extreme_scale", _case(decades=8.0), _run, quick=1200, thorough=8000,
+                   rule="same with uniform scale 10^U(-8,8) (tolerances are scale-free)", floors={"flag:default": 0.1})]
 
 
 def selftest():
